@@ -111,7 +111,7 @@ def main(tier, seed):
     rng = lib.rng_for(seed, PID)
     n_hist = 80 if tier == 'quick' else 1500
     for _ in range(n_hist):
-        prog = progs.gen_prog(rng, ap, nout=1)
+        prog = progs.gen_prog(rng, ap, nout=1, focus='linalg' if rng.random() < 0.3 else None)
         prog2 = progs.gen_prog(rng, ap, nout=1, N=prog['N'])
         N = prog['N']
         text = progs.to_text(prog)
